@@ -75,4 +75,14 @@ func init() {
 			"arbitrary byte strings through the dependency's lexers/parsers: not decided (A-dep)",
 		},
 	})
+	registerProp(&PropSpec{
+		ID:     "C17",
+		Custom: []string{"tables"},
+		Notes: []string{
+			"T: one ground obligation per table entry, extracted from the constant composite literals of /repo's working tree on every run (a table that stops being a constant literal fails the check), evaluated exhaustively by the generator",
+			"A-ref: the reference relations in /verif/reference (Go's html entity table through html.UnescapeString, x/image colornames, html/template URL attributes, typed-in lists from the HTML/CSS/SVG standards) are correct transcriptions",
+			"hash tables: Hash.String and ToHash of /repo are executed by govc's interpreter for every Hash constant (ToHash(String(h)) == h)",
+			"'each exercised through the public minifier' is not decided by this technique",
+		},
+	})
 }
